@@ -69,6 +69,349 @@ theorem C19_validate_exit_perm (a b : List Bool) (h : a.Perm b) : validateExit a
     exact ⟨fun ha x hx => ha x (h.mem_iff.mpr hx), fun hb x hx => hb x (h.mem_iff.mp hx)⟩
   rw [this]
 
+/-! ### Details: formats, verbose blocks, `dirs`, `specs` arguments, `inject` patterns -/
+
+/-- `strings.Join(strings.Split(s, "\n"), "\n") = s`: the lines of a text determine the text -/
+theorem splitAll_ne_nil' (sep : Byte) : ∀ s : Str, splitAll sep s ≠ [] := by
+  intro s
+  induction s with
+  | nil => simp [splitAll]
+  | cons c cs ih =>
+    unfold splitAll
+    split
+    · simp
+    · split <;> simp
+
+theorem map_inj_of_inj {α β} (f : α → β) (hf : ∀ x y, f x = f y → x = y) :
+    ∀ a b : List α, a.map f = b.map f → a = b := by
+  intro a
+  induction a with
+  | nil => intro b h; cases b with | nil => rfl | cons _ _ => simp at h
+  | cons x xs ih =>
+    intro b h
+    cases b with
+    | nil => simp at h
+    | cons y ys =>
+      simp only [List.map_cons, List.cons.injEq] at h
+      rw [hf x y h.1, ih ys h.2]
+
+theorem flatMap_single {α β} (f : α → β) : ∀ l : List α, l.flatMap (fun s => [f s]) = l.map f := by
+  intro l
+  induction l with
+  | nil => rfl
+  | cons x xs ih => simp [List.flatMap_cons, ih]
+
+theorem joinWith_splitAll (sep : Byte) : ∀ s : Str, joinWith sep (splitAll sep s) = s := by
+  intro s
+  induction s with
+  | nil => rfl
+  | cons c cs ih =>
+    unfold splitAll
+    by_cases h : c = sep
+    · simp only [h, if_true]
+      cases hs : splitAll sep cs with
+      | nil => exact absurd hs (splitAll_ne_nil' sep cs)
+      | cons p ps => rw [hs] at ih; simp [joinWith, ih]
+    · simp only [h, if_false]
+      cases hs : splitAll sep cs with
+      | nil => exact absurd hs (splitAll_ne_nil' sep cs)
+      | cons p ps =>
+        rw [hs] at ih
+        cases ps with
+        | nil => simp [joinWith] at ih ⊢; exact ih
+        | cons q qs => simp [joinWith] at ih ⊢; exact ih
+
+theorem splitAll_inj (sep : Byte) (a b : Str) (h : splitAll sep a = splitAll sep b) : a = b := by
+  rw [← joinWith_splitAll sep a, ← joinWith_splitAll sep b, h]
+
+/-- **C19 (a printed block is the pretty-printed object)**: the indented block `marshalObject` prints
+determines the pretty-printer's text up to one final line break - so two different library results
+never print alike. -/
+theorem C19_marshalLines_faithful (level : Nat) (a b : Str) (h : marshalLines level a = marshalLines level b) :
+    trimNL a = trimNL b := by
+  unfold marshalLines at h
+  apply splitAll_inj cNL
+  exact map_inj_of_inj _ (fun x y hxy => List.append_cancel_left hxy) _ _ h
+
+/-- **C19 (format choice)**: an explicit `--output` is used as given; without one the format follows the
+file the object came from, and is `yaml` for anything that is not a `.json` file. -/
+theorem C19_chooseFormat_explicit (format path : Str) (h : format ≠ []) : chooseFormat format path = format := by
+  simp [chooseFormat, h]
+
+theorem C19_chooseFormat_default (path : Str) :
+    chooseFormat [] path = lit "json" ∨ chooseFormat [] path = lit "yaml" := by
+  unfold chooseFormat
+  simp only [if_true]
+  by_cases h1 : Path.ext path = lit ".json"
+  · left; simp [h1]; decide
+  · by_cases h2 : Path.ext path = lit ".yaml"
+    · right; simp [h2]; decide
+    · right; simp [h1, h2]
+
+/-- which pretty-printer runs depends only on whether the chosen format is `json` -/
+theorem C19_pick_json (j y : Str) : pick (lit "json") j y = j := by simp [pick]
+theorem C19_pick_other (f j y : Str) (h : f ≠ lit "json") : pick f j y = y := by simp [pick, h]
+
+/-- the non-verbose listing ignores `--output` and everything but the names -/
+theorem C19_devices_plain (format : Str) (ds : List DevView) :
+    renderDevicesV false format ds = renderDevices (ds.map (·.name)) := by simp [renderDevicesV]
+
+/-- **C19 (verbose device listing)**: header, then for every device of the library's listing, in order, its
+name and Spec path, its pretty-printed definition and - exactly when its Spec has env/device-node/hook/mount
+edits of its own - those edits. -/
+theorem C19_devices_verbose (format : Str) (d : DevView) (ds : List DevView) :
+    renderDevicesV true format (d :: ds) =
+      line "CDI devices found:" :: (renderDeviceVerbose format d ++ ds.flatMap (renderDeviceVerbose format)) := by
+  simp [renderDevicesV]
+
+theorem C19_device_block_head (format : Str) (d : DevView) :
+    (renderDeviceVerbose format d).head? = some (lit "  " ++ d.name ++ lit " (" ++ d.path ++ lit ")") := by
+  simp [renderDeviceVerbose]
+
+/-- **C19 (`dirs`)**: the printed list determines the directories and their priorities are the positions. -/
+theorem C19_dirs_injective (l1 l2 : List Str) (h : renderDirs l1 = renderDirs l2) : l1 = l2 := by
+  unfold renderDirs at h
+  simp only [List.cons.injEq, true_and] at h
+  exact zipIdx_map_inj (fun i d => lit "  " ++ d ++ lit " (priority " ++ natStr i ++ lit ")")
+    (fun i a b hab => by
+      simp only [List.append_assoc] at hab
+      exact List.append_cancel_right (List.append_cancel_left hab)) l1 l2 0 h
+
+theorem C19_dirs_length (l : List Str) : (renderDirs l).length = l.length + 1 := by simp [renderDirs]
+
+/-- **C19 (`specs` with vendor arguments)**: the arguments never filter the listing - with any non-empty cache
+the output is that of `specs` without arguments. -/
+theorem C19_specs_args_irrelevant (verbose : Bool) (format : Str) (args : List Str)
+    (vendors : List (Str × List SpecView)) (h : vendors ≠ []) :
+    renderSpecsV verbose format args vendors = renderSpecsV verbose format [] vendors := by
+  simp [renderSpecsV, h]
+
+/-- the non-verbose Spec listing is the one of `renderSpecs` -/
+theorem C19_specs_plain (format : Str) (vendors : List (Str × List SpecView)) :
+    renderSpecsV false format [] vendors = renderSpecs (vendors.map (fun v => (v.1, v.2.map (·.path)))) := by
+  unfold renderSpecsV renderSpecs
+  by_cases h : vendors = []
+  · simp [h]
+  · simp [h, indent, lit, flatMap_single, List.flatMap_map, List.map_map, Function.comp_def]
+
+/-! #### `inject`: which devices are handed to the library -/
+
+theorem any_perm {α} (p : α → Bool) {a b : List α} (h : a.Perm b) : a.any p = b.any p := by
+  apply Bool.eq_iff_iff.mpr
+  simp only [List.any_eq_true]
+  exact ⟨fun ⟨x, hx, hp⟩ => ⟨x, h.mem_iff.mp hx, hp⟩, fun ⟨x, hx, hp⟩ => ⟨x, h.mem_iff.mpr hx, hp⟩⟩
+
+theorem any_subset_eq {α} (p : α → Bool) {a b : List α} (h1 : ∀ x ∈ a, x ∈ b) (h2 : ∀ x ∈ b, x ∈ a) :
+    a.any p = b.any p := by
+  apply Bool.eq_iff_iff.mpr
+  simp only [List.any_eq_true]
+  exact ⟨fun ⟨x, hx, hp⟩ => ⟨x, h1 x hx, hp⟩, fun ⟨x, hx, hp⟩ => ⟨x, h2 x hx, hp⟩⟩
+
+/-- **C19 (inject: patterns are a set)**: the devices handed to the library depend only on *which* patterns
+were given - not on their order, and a pattern repeated or several patterns matching one device do not make
+that device appear twice. -/
+theorem C19_select_patterns_as_set (m : Str → Str → Option Bool) (ps ps' ds : List Str)
+    (h1 : ∀ p ∈ ps, p ∈ ps') (h2 : ∀ p ∈ ps', p ∈ ps) :
+    selectDevices m ps ds = selectDevices m ps' ds := by
+  unfold selectDevices
+  have e1 : ∀ d, ps.any (fun p => (m p d).isNone) = ps'.any (fun p => (m p d).isNone) :=
+    fun d => any_subset_eq _ h1 h2
+  have e2 : ∀ d, ps.any (fun p => m p d == some true) = ps'.any (fun p => m p d == some true) :=
+    fun d => any_subset_eq _ h1 h2
+  simp only [e1, e2]
+
+theorem mem_dedup (x : Str) : ∀ l : List Str, x ∈ dedup l ↔ x ∈ l := by
+  intro l
+  induction l with
+  | nil => simp [dedup]
+  | cons y ys ih =>
+    unfold dedup
+    by_cases hc : y ∈ ys
+    · simp only [hc, if_true, ih, List.mem_cons]
+      constructor
+      · exact Or.inr
+      · rintro (rfl | h)
+        · exact hc
+        · exact h
+    · simp only [hc, if_false, List.mem_cons, ih]
+
+theorem nodup_dedup : ∀ l : List Str, (dedup l).Nodup := by
+  intro l
+  induction l with
+  | nil => simp [dedup]
+  | cons y ys ih =>
+    unfold dedup
+    by_cases hc : y ∈ ys
+    · simpa only [hc, if_true] using ih
+    · simp only [hc, if_false, List.nodup_cons]
+      exact ⟨fun h => hc ((mem_dedup y ys).mp h), ih⟩
+
+theorem insertSorted_perm (x : Str) : ∀ l : List Str, (Annotations.insertSorted x l).Perm (x :: l) := by
+  intro l
+  induction l with
+  | nil => simp [Annotations.insertSorted]
+  | cons y ys ih =>
+    unfold Annotations.insertSorted
+    split
+    · exact List.Perm.refl _
+    · exact (List.Perm.cons y ih).trans (List.Perm.swap x y ys)
+
+theorem sortStrs_perm : ∀ l : List Str, (Annotations.sortStrs l).Perm l := by
+  intro l
+  induction l with
+  | nil => exact List.Perm.refl _
+  | cons x xs ih =>
+    show (Annotations.insertSorted x (Annotations.sortStrs xs)).Perm (x :: xs)
+    exact (insertSorted_perm x _).trans (List.Perm.cons x ih)
+
+/-- **C19 (inject: exactly the matched devices, once each)** -/
+theorem C19_select_mem (m : Str → Str → Option Bool) (ps ds l : List Str) (h : selectDevices m ps ds = some l) (d : Str) :
+    d ∈ l ↔ d ∈ ds ∧ ∃ p ∈ ps, m p d = some true := by
+  unfold selectDevices at h
+  split at h
+  · cases h
+  · injection h with h
+    subst h
+    rw [(sortStrs_perm _).mem_iff]
+    simp [mem_dedup, List.mem_filter]
+
+theorem C19_select_nodup (m : Str → Str → Option Bool) (ps ds l : List Str) (h : selectDevices m ps ds = some l) :
+    l.Nodup := by
+  unfold selectDevices at h
+  split at h
+  · cases h
+  · injection h with h
+    subst h
+    exact (sortStrs_perm _).nodup_iff.mpr (nodup_dedup _)
+
+/-- an ill-formed pattern fails the command iff it is evaluated, i.e. iff the cache lists a device at all -/
+theorem C19_select_bad_pattern (m : Str → Str → Option Bool) (ps ds : List Str) :
+    selectDevices m ps ds = none ↔ ∃ d ∈ ds, ∃ p ∈ ps, m p d = none := by
+  unfold selectDevices
+  split
+  · rename_i h
+    simp only [List.any_eq_true, Option.isNone_iff_eq_none] at h
+    simpa using h
+  · rename_i h
+    simp only [List.any_eq_true, Option.isNone_iff_eq_none, not_exists, not_and] at h
+    simp only [reduceCtorEq, false_iff, not_exists, not_and]
+    exact fun d hd p hp => h d hd p hp
+
+/-! ### Numbers and vendor lines print injectively -/
+
+theorem map_inj_on {α β} (f : α → β) : ∀ (a b : List α), (∀ x ∈ a, ∀ y ∈ b, f x = f y → x = y) → a.map f = b.map f → a = b := by
+  intro a
+  induction a with
+  | nil => intro b _ h; cases b with | nil => rfl | cons _ _ => simp at h
+  | cons x xs ih =>
+    intro b hf h
+    cases b with
+    | nil => simp at h
+    | cons y ys =>
+      simp only [List.map_cons, List.cons.injEq] at h
+      rw [hf x (by simp) y (by simp) h.1, ih ys (fun u hu v hv => hf u (by simp [hu]) v (by simp [hv])) h.2]
+
+theorem digit_byte_inj (x y : Char) (hx : x.isDigit = true) (hy : y.isDigit = true)
+    (h : x.toNat.toUInt8 = y.toNat.toUInt8) : x = y := by
+  simp only [Char.isDigit, Bool.and_eq_true, decide_eq_true_eq] at hx hy
+  have hx1 : x.toNat ≤ 57 := by have := hx.2; exact this
+  have hy1 : y.toNat ≤ 57 := by have := hy.2; exact this
+  have : x.toNat = y.toNat := by
+    have h2 := congrArg UInt8.toNat h
+    simp only [Nat.toUInt8, UInt8.toNat_ofNat'] at h2
+    omega
+  exact Char.toNat_inj.mp this |> fun h => h
+
+theorem natStr_inj (a b : Nat) (h : natStr a = natStr b) : a = b := by
+  unfold natStr at h
+  have ha : (toString a).toList = Nat.toDigits 10 a := by
+    rw [Nat.toString_eq_repr, Nat.toList_repr]
+  have hb : (toString b).toList = Nat.toDigits 10 b := by
+    rw [Nat.toString_eq_repr, Nat.toList_repr]
+  rw [ha, hb] at h
+  have := map_inj_on _ _ _ (fun x hx y hy hxy =>
+    digit_byte_inj x y (Nat.isDigit_of_mem_toDigits (by omega) (by omega) hx)
+      (Nat.isDigit_of_mem_toDigits (by omega) (by omega) hy) hxy) h
+  have h2 := congrArg (fun l => Nat.ofDigitChars 10 l 0) this
+  simpa [Nat.ofDigitChars_ten_toDigits] using h2
+
+
+theorem zipIdx_map_inj_on {α} (P : α → Prop) (f : Nat → α → Str) (hf : ∀ i a b, P a → P b → f i a = f i b → a = b) :
+    ∀ (l1 l2 : List α) (k : Nat), (∀ a ∈ l1, P a) → (∀ a ∈ l2, P a) →
+      (l1.zipIdx k).map (fun p => f p.2 p.1) = (l2.zipIdx k).map (fun p => f p.2 p.1) → l1 = l2 := by
+  intro l1
+  induction l1 with
+  | nil =>
+    intro l2 k _ _ h
+    cases l2 with
+    | nil => rfl
+    | cons b r => simp at h
+  | cons a r ih =>
+    intro l2 k h1 h2 h
+    cases l2 with
+    | nil => simp at h
+    | cons b r2 =>
+      simp only [List.zipIdx_cons, List.map_cons, List.cons.injEq] at h
+      rw [hf k a b (h1 a (by simp)) (h2 b (by simp)) h.1,
+        ih r2 (k + 1) (fun x hx => h1 x (by simp [hx])) (fun x hx => h2 x (by simp [hx])) h.2]
+
+theorem split_at_marker (q : Byte) : ∀ (a b r s : Str), q ∉ a → q ∉ b → a ++ q :: r = b ++ q :: s → a = b ∧ r = s := by
+  intro a
+  induction a with
+  | nil =>
+    intro b r s _ hb h
+    cases b with
+    | nil => simpa using h
+    | cons y ys =>
+      simp only [List.nil_append, List.cons_append, List.cons.injEq] at h
+      exact absurd (by simp [h.1]) hb
+  | cons x xs ih =>
+    intro b r s ha hb h
+    cases b with
+    | nil =>
+      simp only [List.nil_append, List.cons_append, List.cons.injEq] at h
+      exact absurd (by simp [h.1]) ha
+    | cons y ys =>
+      simp only [List.cons_append, List.cons.injEq] at h
+      have := ih ys r s (fun hx => ha (by simp [hx])) (fun hy => hb (by simp [hy])) h.2
+      exact ⟨by rw [h.1, this.1], this.2⟩
+
+/-- **C19 (vendor listing is faithful)** -/
+theorem C19_vendors_injective (l1 l2 : List (Str × Nat)) (q1 : ∀ v ∈ l1, (34 : Byte) ∉ v.1) (q2 : ∀ v ∈ l2, (34 : Byte) ∉ v.1)
+    (h : renderVendors l1 = renderVendors l2) : l1 = l2 := by
+  unfold renderVendors at h
+  by_cases h1 : l1 = [] <;> by_cases h2 : l2 = []
+  · rw [h1, h2]
+  · simp only [h1, h2, if_true, if_false] at h
+    exact absurd (List.cons.inj h).1 (by decide)
+  · simp only [h1, h2, if_true, if_false] at h
+    exact absurd (List.cons.inj h).1 (by decide)
+  · simp only [h1, h2, if_false, List.cons.injEq, true_and] at h
+    refine zipIdx_map_inj_on (fun v : Str × Nat => (34 : Byte) ∉ v.1)
+      (fun i v => lit "  " ++ natStr i ++ lit ". \"" ++ v.1 ++ lit "\" (" ++ natStr v.2 ++ lit " CDI Spec Files)")
+      (fun i a b pa pb hab => ?_) l1 l2 0 q1 q2 h
+    simp only [List.append_assoc] at hab
+    have h3 := List.append_cancel_left (List.append_cancel_left (List.append_cancel_left hab))
+    have e : lit "\" (" = (34 : Byte) :: lit " (" := by decide
+    rw [e] at h3
+    simp only [List.cons_append] at h3
+    obtain ⟨hv, hr⟩ := split_at_marker 34 _ _ _ _ pa pb h3
+    have hn := natStr_inj _ _ (List.append_cancel_right (List.append_cancel_left hr))
+    exact Prod.ext hv hn
+
+example : renderVendors [(lit "v.com", 2)] = [lit "CDI vendors found:", lit "  0. \"v.com\" (2 CDI Spec Files)"] := by decide
+
+/-! ### Non-vacuity of the details -/
+example : chooseFormat [] (lit "/etc/cdi/a.json") = lit "json" := by decide
+example : chooseFormat [] (lit "/etc/cdi/a.yaml") = lit "yaml" := by decide
+example : chooseFormat [] (lit "-") = lit "yaml" := by decide
+example : chooseFormat (lit "json") (lit "/etc/cdi/a.yaml") = lit "json" := by decide
+example : marshalLines 2 (lit "a:\n  b: 1\n") = [lit "  a:", lit "    b: 1"] := by decide
+example : renderDirs [lit "/etc/cdi", lit "/var/run/cdi"] =
+    [lit "CDI Spec directories in use:", lit "  /etc/cdi (priority 0)", lit "  /var/run/cdi (priority 1)"] := by decide
+example : selectDevices (fun p d => some (p == d || p == lit "*")) [lit "*", lit "v/c=b", lit "*"] [lit "v/c=b", lit "v/c=a"]
+    = some [lit "v/c=a", lit "v/c=b"] := by decide
+
 /-! ### Non-vacuity -/
 example : renderDevices [lit "v.com/c=a", lit "v.com/c=b"] =
     [lit "CDI devices found:", lit "  0. v.com/c=a", lit "  1. v.com/c=b"] := by decide
